@@ -4,13 +4,14 @@
 # exit 0 = the check printed a VIOLATION (caught), 1 = missed, 2 = inconclusive
 set -u
 NAME="$1"; PROP="${2:-${NAME:0:3}}"; TIER="${3:-quick}"
-SEED=/verif/seeded/$NAME
+ROOT="$(cd "$(dirname "$0")/.." && pwd)"
+SEED=$ROOT/seeded/$NAME
 [ -f $SEED/patch.diff ] || { echo "no such seed $NAME"; exit 2; }
 WT=/root/vscratch/seed-$NAME-$$
 git -C /repo worktree add -q --detach $WT HEAD || exit 2
 trap 'git -C /repo worktree remove --force $WT >/dev/null 2>&1; rm -rf $WT' EXIT
 git -C $WT apply $SEED/patch.diff || { echo "patch does not apply"; exit 2; }
-OUT=$(cd /verif && VERIF_REPO=$WT VERIF_EXTRA=-no-evidence ./run.sh $PROP $TIER 2>&1)
+OUT=$(cd $ROOT && VERIF_REPO=$WT VERIF_EXTRA=-no-evidence ./run.sh $PROP $TIER 2>&1)
 RC=$?
 echo "$OUT" | grep -E "^(VIOLATION|  check=|SUMMARY|INCONCLUSIVE|KNOWN)" | cut -c1-260 | head -12
 if [ $RC -eq 1 ] && echo "$OUT" | grep -q "^VIOLATION property=$PROP"; then echo "RESULT $NAME/$PROP: CAUGHT"; exit 0; fi
